@@ -23,6 +23,7 @@ import (
 	"errors"
 	"fmt"
 	"regexp"
+	"sort"
 	"strconv"
 	"strings"
 	"time"
@@ -391,6 +392,16 @@ func GetUniqueTraceIds(pipeSearchResponseOuter *segstructs.PipeSearchResponseOut
 	if endIndex > totalTracesIds {
 		endIndex = totalTracesIds
 	}
+
+	// The buckets come in no particular order, and the order differs from one request to the
+	// next; page through them in a fixed order so that every trace is on exactly one page.
+	sort.SliceStable(pipeSearchResponseOuter.MeasureResults, func(i, j int) bool {
+		a, b := pipeSearchResponseOuter.MeasureResults[i], pipeSearchResponseOuter.MeasureResults[j]
+		if a == nil || b == nil || len(a.GroupByValues) == 0 || len(b.GroupByValues) == 0 {
+			return false
+		}
+		return a.GroupByValues[0] < b.GroupByValues[0]
+	})
 
 	traceIds := make([]string, 0)
 	for _, bucket := range pipeSearchResponseOuter.MeasureResults[(page-1)*TRACE_PAGE_LIMIT : endIndex] {
